@@ -211,6 +211,7 @@ func (c *deleteCleaner) deleteSegments(segments []*segment) error {
 			}
 			// Continue trying to delete other segments
 		}
+		crashPoint("retention.segment-deleted")
 	}
 
 	return firstErr
